@@ -57,7 +57,7 @@ def run(ctx):
 
     summ = sc.run_driver(ctx, "mux", [uni, reg, out] + vecs)
     mism = verif.read_ndjson(out)
-    ctx.log("driver: %d evaluations (2 namespaces), %d registration cases, %d mismatches" % (
+    ctx.log("driver: %d evaluations (2 namespaces x 3 reader styles), %d registration cases, %d mismatches" % (
         summ["evaluations"], summ["registration_cases"], summ["mismatches"]))
     sc.report_grouped(ctx, mism, signature, describe)
 
@@ -72,6 +72,7 @@ def run(ctx):
         "exhaustive": "every subset of the nine-name pattern universe (512) per stanza kind and type, with and "
                       "without the same names under another type / kind, x every incoming name; message/presence "
                       "child sequences of length <= %d over 5 payload names and text" % (2 if quick else 3),
+        "reader_styles": ["xml.Decoder (character data valid until the next read only)", "token slice, last token delivered together with io.EOF", "children with character data of their own (text the handlers are shown is compared with the stanza's)"],
         "rule": "an evaluation is non-trivial if a handler ran or the multiplexer wrote something; distinct = distinct "
                 "(kind, invocation log, output) observations",
         "samples": summ["samples"][:3],
